@@ -53,8 +53,9 @@ def utf8_cases(c):
 
 # ---------------------------------------------------------------- summaries for the tokenizer bodies
 class ParserScenario:
-    def __init__(self, ctx, n, fail_at=None):
+    def __init__(self, ctx, n, fail_at=None, extra_summaries=(), extra_inline=(), max_visits=None):
         self.ctx = ctx; self.n = n; self.fail_at = fail_at
+        self.extra_summaries = list(extra_summaries); self.extra_inline = list(extra_inline); self.max_visits = max_visits
         self.INPUT = [z3.BitVec(f'b{i}', 8) for i in range(n)]
         enums = ctx.enums
         self.JPE = enums['JsonParserError']; self.JV = enums['JsonValue']; self.NV = enums['NumberValue']
@@ -272,9 +273,9 @@ class ParserScenario:
                 inl.append((r'JsonParserUtils>::%s(::<\d+>)?$|JsonParser>::%s$' % (m.group(1), m.group(1)), '^' + re.escape(name) + '$'))
             m = re.match(r'^reader::<impl at [^>]*>::(next|peek|eat_whitespace|read_digits|where_am_i)$', name)
             if m:
-                inl.append((r'Reader::<R>::%s$' % m.group(1), '^' + re.escape(name) + '$'))
+                inl.append((r'Reader::<.*>::%s$' % m.group(1), '^' + re.escape(name) + '$'))
         self.extra = []
-        return ctx.exec(summaries=summ, inline=inl, max_visits=4 * self.n + 12)
+        return ctx.exec(summaries=self.extra_summaries + summ, inline=self.extra_inline + inl, max_visits=self.max_visits or 4 * self.n + 12)
 
     # -- initial reader state
     def initial(self, arbitrary=True):
